@@ -4,4 +4,4 @@ CONSTANTS
 SPECIFICATION TraceSpec
 CHECK_DEADLOCK FALSE
 POSTCONDITION TraceAccepted
-INVARIANTS Conforms C12Partition C12AllReturned SpecC12
+INVARIANTS C12Partition C12AllReturned Conforms SpecC12
